@@ -184,3 +184,338 @@ def migration_all_records(crate):
             P.cover(ex, res, o, z3.And(isok, P.hdr(crate, h, "flags") & 1 == 0), "plain record migrated")
         P.cover(ex, res, o, z3.And(z3.UGE(src, tgt), isok), "no migration needed")
     return P.finish(ex, res, ["deletion marker migrated", "plain record migrated", "no migration needed"])
+
+
+def validate_blob_all_or_error(crate, N=3):
+    """C16: tools::validate_blob accepts a blob only if its header read succeeded and EVERY record up to the end of the file
+    was read and validated successfully, in order; the first failure is returned (a truncated or damaged blob is rejected)."""
+    res = P.ObResult("validate_blob_all_or_error[N<=%d]" % N)
+    fn = crate.find(r"(^|::)validate_blob$")
+    res.functions = ["tools::validation::validate_blob", "BlobReader::is_eof"]
+    res.bounds = "<= %d records before the end of the file (loop unwound %d times, deeper paths dropped), every outcome of the reads" % (N, N + 1)
+    ex = P.mk_executor(crate, cap=2, loop_bound=N + 1, inline=INLINE_TOOLS + [r"^BlobReader::is_eof$"])
+    ex.unwind_assume = True
+    st = State()
+    reader = {}
+
+    def call_hook(ex_, st_, cname, args, dty):
+        if cname == "BlobReader::from_path":
+            r = ex_.fresh(dty, st_, "reader")
+            rd = ex_._get_field(st_, r, "Ok", 0, "tools::blob_reader::BlobReader")
+            pos = ex_._get_field(st_, rd, None, crate.field_index("BlobReader", "position"), "u64")
+            ln = ex_._get_field(st_, rd, None, crate.field_index("BlobReader", "len"), "u64")
+            st_.pc.append(z3.And(z3.ULT(pos.t, BV64(1 << 40)), z3.ULT(ln.t, BV64(1 << 40))))
+            st_.events.append(("call", cname, args, r))
+            return [(r, None)]
+        if cname in ("BlobReader::read_header", "BlobReader::read_record"):
+            # Ok advances the position by a positive amount, Err leaves the reader wherever it is (not used afterwards)
+            r = ex_.fresh(dty, st_, "rd")
+            me = args[0]
+            rd = S.deref_val(ex_, st_, me)
+            pi = crate.field_index("BlobReader", "position")
+            adv = z3.BitVec(fresh_name("advance"), 64)
+            st_.pc.append(z3.And(z3.UGT(adv, BV64(0)), z3.ULT(adv, BV64(1 << 40))))
+            okk = ex_.get_discr(st_, r).t == BV64(0)
+            old = ex_._get_field(st_, rd, None, pi, "u64").t
+            ex_.write_path(st_, me.cell, tuple(me.proj) + (("field", pi, "u64"),), Sym(z3.If(okk, old + adv, old), "u64"))
+            st_.events.append(("call", cname, args, r))
+            return [(r, None)]
+        return None
+    ex.call_hook = call_hook
+    path = Ref(st.new_cell(Obj("std::path::Path")), (), False, "&std::path::Path")
+    outs = _sync_run(ex, st, fn, [path])
+    res.paths = len(outs)
+    for o in outs:
+        if o.status in ("infeasible", "unwind"):
+            continue
+        if o.status != "returned":
+            if not P.prove(ex, res, o, z3.BoolVal(False), "no panic (%s)" % o.note):
+                break
+            continue
+        isok = ex.get_discr(o, o.result).t == BV64(0)
+        evs = [e for e in o.events if e[0] == "call" and e[1].startswith("BlobReader::")]
+        oks = [ex.get_discr(o, e[3]).t == BV64(0) for e in evs]
+        names = [e[1] for e in evs]
+        if not P.prove(ex, res, o, z3.Implies(isok, z3.And(*oks) if oks else z3.BoolVal(False)), "Ok => every read succeeded"):
+            break
+        if not P.prove(ex, res, o, z3.Implies(isok, z3.BoolVal(len(names) >= 2 and names[0] == "BlobReader::from_path" and names[1] == "BlobReader::read_header")),
+                       "Ok => the file was opened and the blob header validated first"):
+            break
+        bad = False
+        for i in range(len(evs) - 1):
+            if not P.prove(ex, res, o, oks[i], "nothing is read after a failed read"):
+                bad = True
+                break
+        if bad:
+            break
+        if evs:
+            if not P.prove(ex, res, o, z3.Implies(z3.Not(oks[-1]), z3.Not(isok)), "the first failure is returned"):
+                break
+        # Ok => the reader reached the end of the file
+        rds = [e for e in evs if e[1] == "BlobReader::from_path"]
+        if rds and len(evs) >= 2:
+            rd = ex._get_field(o, rds[0][3], "Ok", 0, "tools::blob_reader::BlobReader")
+        nrec = len([n for n in names if n == "BlobReader::read_record"])
+        P.cover(ex, res, o, z3.And(isok, z3.BoolVal(nrec >= 2)), "two or more records accepted")
+        P.cover(ex, res, o, z3.And(z3.Not(isok), z3.BoolVal(nrec >= 2)), "rejected after a valid record")
+        P.cover(ex, res, o, z3.And(isok, z3.BoolVal(nrec == 0)), "empty blob accepted")
+    return P.finish(ex, res, ["two or more records accepted", "rejected after a valid record", "empty blob accepted"])
+
+
+def reader_record_step(crate):
+    """C16: BlobReader::read_single_record: Ok only if the record header validated (magic + header CRC) and the whole
+    record validated (data CRC) — the recovery and validation tools never pass on an unchecked record; the reader's
+    position advances by exactly header size + meta_size + data_size on success, so the next record is read from the
+    right place; a header that fails validation is remembered for the skip logic."""
+    res = P.ObResult("reader_record_step")
+    fn = crate.method("BlobReader", "read_single_record")
+    res.functions = ["BlobReader::read_single_record + closures", "BlobReader::read_bytes", "RecordHeader::{meta_size,data_size}"]
+    res.bounds = "one record, arbitrary position (< 2^40), header sizes (< 2^40), every outcome of the reads / decoders / validations"
+    ex = P.mk_executor(crate, cap=2, loop_bound=4, inline=INLINE_TOOLS + [r"^BlobReader::read_bytes$"],
+                       havoc=[r"^(std|alloc)::vec::from_elem$", r"^<.* as (std::io::)?Read>::read_exact$", r"^<.* as Clone>::clone$"])
+    st = State()
+    rd = Obj("tools::blob_reader::BlobReader")
+    pos = z3.BitVec("position", 64)
+    st.pc.append(z3.ULT(pos, BV64(1 << 40)))
+    pi = crate.field_index("BlobReader", "position")
+    rd.fields[(None, pi)] = Sym(pos, "u64")
+    rc = st.new_cell(rd)
+    hsize = z3.BitVec("serialized_header_size", 64)
+    st.pc.append(z3.And(z3.UGT(hsize, BV64(0)), z3.ULT(hsize, BV64(1 << 20))))
+    hdrs = {}
+
+    def h_deser_from(ex_, st_, frame, t, nf, args, dty):
+        r = ex_.fresh(dty, st_, "decoded")
+        h = ex_._get_field(st_, r, "Ok", 0, "record::record::Header")
+        if "Header" in dty:
+            for fld in ("meta_size", "data_size"):
+                st_.pc.append(z3.ULT(P.hdrl(crate, ex_, st_, h, fld), BV64(1 << 40)))
+            hdrs["h"] = h
+        st_.events.append(("decode", nf, None, r))
+        return [(r, None)]
+
+    def h_ser_size(ex_, st_, frame, t, nf, args, dty):
+        okv = z3.Bool(fresh_name("size_ok"))
+        r = Obj(dty)
+        r.discr = Sym(z3.If(okv, BV64(0), BV64(1)), "isize")
+        r.fields[("Ok", 0)] = Sym(hsize, "u64")
+        return [(r, None)]
+    ex.summaries.insert(0, (re.compile(r"^bincode::deserialize_from$"), h_deser_from))
+    ex.summaries.insert(0, (re.compile(r"^bincode::serialized_size$"), h_ser_size))
+    outs = _sync_run(ex, st, fn, [Ref(rc, (), True, "&mut BlobReader")])
+    res.paths = len(outs)
+    for o in outs:
+        if o.status in ("infeasible", "unwind"):
+            continue
+        if o.status != "returned":
+            if not P.prove(ex, res, o, z3.BoolVal(False), "no panic (%s)" % o.note):
+                break
+            continue
+        isok = ex.get_discr(o, o.result).t == BV64(0)
+        evs = [e for e in o.events if e[0] == "call"]
+        names = [e[1] for e in evs]
+        i_hv = idx(names, "Header::validate")
+        i_rv = idx(names, "Record::validate")
+        pos2 = o.mem[rc].fields[(None, pi)].t
+        if not P.prove(ex, res, o, z3.Implies(isok, z3.BoolVal(i_hv is not None and i_rv is not None)), "Ok => header and record validations ran"):
+            break
+        if i_hv is not None:
+            hv_ok = ex.get_discr(o, evs[i_hv][3]).t == BV64(0)
+            if not P.prove(ex, res, o, z3.Implies(isok, hv_ok), "Ok => the record header validated"):
+                break
+            lw = o.mem[rc].fields.get((None, crate.field_index("BlobReader", "latest_wrong_header")))
+            if lw is not None:
+                if not P.prove(ex, res, o, z3.Implies(z3.Not(hv_ok), z3.And(z3.Not(isok), ex.get_discr(o, lw).t == BV64(1))),
+                               "invalid header: error, the header is remembered for skipping"):
+                    break
+                P.cover(ex, res, o, z3.Not(hv_ok), "invalid header remembered")
+        if i_rv is not None:
+            rv_ok = ex.get_discr(o, evs[i_rv][3]).t == BV64(0)
+            if not P.prove(ex, res, o, isok == rv_ok, "with a valid header: Ok iff the whole record validated (data checksum)"):
+                break
+            h = hdrs.get("h")
+            if h is not None:
+                msz, dsz = P.hdrl(crate, ex, o, h, "meta_size"), P.hdrl(crate, ex, o, h, "data_size")
+                if not P.prove(ex, res, o, pos2 == pos + hsize + msz + dsz, "position advanced by header + meta + data (also when the data checksum fails)"):
+                    break
+                rec = evs[i_rv][2][0]
+                rh = rec.fields.get((None, crate.field_index("Record", "header"))) if isinstance(rec, Obj) else None
+                if not (isinstance(rh, Obj) and rh.oid == h.oid):
+                    res.status = "violated"; res.detail = "the record validated is not built from the decoded header"; break
+            P.cover(ex, res, o, isok, "record accepted")
+            P.cover(ex, res, o, z3.Not(rv_ok), "data checksum mismatch rejected")
+    return P.finish(ex, res, ["record accepted", "data checksum mismatch rejected", "invalid header remembered"])
+
+
+def reader_skip_once(crate):
+    """C16: BlobReader::read_record: without skipping, the single read's result is returned; with skipping, a first
+    success is returned as is, after a first failure at most ONE more record is read (after at most one data skip) and
+    its result — success or failure — is returned: an isolated damaged record is skipped, a second damage is reported."""
+    res = P.ObResult("reader_skip_once")
+    fn = crate.method("BlobReader", "read_record")
+    res.functions = ["BlobReader::read_record"]
+    res.bounds = "single call, both modes, every outcome / error class of the reads"
+    ex = P.mk_executor(crate, cap=2, loop_bound=4, inline=INLINE_TOOLS)
+    st = State()
+    rc = st.new_cell(Obj("tools::blob_reader::BlobReader"))
+    skip = z3.Bool("skip_wrong")
+    outs = _sync_run(ex, st, fn, [Ref(rc, (), True, "&mut BlobReader"), Sym(skip, "bool")])
+    res.paths = len(outs)
+    for o in outs:
+        if o.status in ("infeasible", "unwind"):
+            continue
+        if o.status != "returned":
+            if not P.prove(ex, res, o, z3.BoolVal(False), "no panic (%s)" % o.note):
+                break
+            continue
+        isok = ex.get_discr(o, o.result).t == BV64(0)
+        evs = [e for e in o.events if e[0] == "call"]
+        reads = [e for e in evs if e[1] == "BlobReader::read_single_record"]
+        skips = [e for e in evs if e[1] == "BlobReader::skip_wrong_record_data"]
+        if not (1 <= len(reads) <= 2 and len(skips) <= 1):
+            res.status = "violated"; res.detail = "%d reads, %d skips in one read_record" % (len(reads), len(skips)); break
+        r0_ok = ex.get_discr(o, reads[0][3]).t == BV64(0)
+        if len(reads) == 1:
+            if skips:
+                if not P.prove(ex, res, o, z3.And(skip, z3.Not(r0_ok), z3.Not(isok), ex.get_discr(o, skips[0][3]).t != BV64(0)),
+                               "no second read after a skip only because the skip itself failed"):
+                    break
+            else:
+                if not P.prove(ex, res, o, z3.Implies(r0_ok, isok), "a successful read is returned"):
+                    break
+                if not P.prove(ex, res, o, z3.Implies(z3.Not(skip), isok == r0_ok), "without skipping: the read's result is returned"):
+                    break
+                P.cover(ex, res, o, z3.And(skip, z3.Not(r0_ok), z3.Not(isok)), "error of another class is not skipped")
+        else:
+            r1_ok = ex.get_discr(o, reads[1][3]).t == BV64(0)
+            if not P.prove(ex, res, o, z3.And(skip, z3.Not(r0_ok), isok == r1_ok), "second read only when skipping after a failure; its result is returned"):
+                break
+            if skips:
+                if not P.prove(ex, res, o, ex.get_discr(o, skips[0][3]).t == BV64(0), "the second read follows a successful skip"):
+                    break
+                order = [e[1] for e in evs if e[1].startswith("BlobReader::")]
+                if order != ["BlobReader::read_single_record", "BlobReader::skip_wrong_record_data", "BlobReader::read_single_record"]:
+                    res.status = "violated"; res.detail = "order %s" % order; break
+            P.cover(ex, res, o, z3.And(isok, z3.BoolVal(bool(skips))), "damaged header skipped, next record returned")
+            P.cover(ex, res, o, z3.And(isok, z3.BoolVal(not skips)), "damaged data skipped, next record returned")
+            P.cover(ex, res, o, z3.Not(isok), "second damage reported")
+    return P.finish(ex, res, ["damaged header skipped, next record returned", "damaged data skipped, next record returned", "second damage reported", "error of another class is not skipped"])
+
+
+def recovery_copies_prefix(crate, N=3):
+    """C16: tools::process_blob_with (recovery_blob / migration driver): the output gets the (preprocessed) blob header,
+    then exactly the records the reader returned Ok (after preprocessing), in order, up to the first read error or the
+    end of the input; nothing is written after a read error; a write error fails the tool; with validation requested the
+    written records are re-validated before success is reported."""
+    res = P.ObResult("recovery_copies_prefix[N<=%d]" % N)
+    fn = crate.find(r"(^|::)process_blob_with$")
+    res.functions = ["tools::utils::process_blob_with + closure", "BlobReader::is_eof"]
+    res.bounds = "<= %d records before the end of the input (loop unwound %d times, deeper paths dropped), every outcome of reader / writer / preprocessing" % (N, N + 1)
+    ex = P.mk_executor(crate, cap=2, loop_bound=N + 1, inline=INLINE_TOOLS + [r"^BlobReader::is_eof$"],
+                       havoc=[r"^<[PQ] as AsRef<.*>>::as_ref$", r"^<(std::path::)?Path as PartialEq>::eq$"])
+    ex.unwind_assume = True
+    st = State()
+    every = z3.BitVec("validate_every", 64)
+    skip = z3.Bool("skip_wrong_record")
+
+    def call_hook(ex_, st_, cname, args, dty):
+        if cname == "BlobReader::from_path":
+            r = ex_.fresh(dty, st_, "reader")
+            rd = ex_._get_field(st_, r, "Ok", 0, "tools::blob_reader::BlobReader")
+            pos = ex_._get_field(st_, rd, None, crate.field_index("BlobReader", "position"), "u64")
+            ln = ex_._get_field(st_, rd, None, crate.field_index("BlobReader", "len"), "u64")
+            st_.pc.append(z3.And(z3.ULT(pos.t, BV64(1 << 40)), z3.ULT(ln.t, BV64(1 << 40))))
+            st_.events.append(("call", cname, args, r))
+            return [(r, None)]
+        if cname in ("BlobReader::read_header", "BlobReader::read_record"):
+            r = ex_.fresh(dty, st_, "rd")
+            me = args[0]
+            rd = S.deref_val(ex_, st_, me)
+            pi = crate.field_index("BlobReader", "position")
+            adv = z3.BitVec(fresh_name("advance"), 64)
+            st_.pc.append(z3.And(z3.UGT(adv, BV64(0)), z3.ULT(adv, BV64(1 << 40))))
+            old = ex_._get_field(st_, rd, None, pi, "u64").t
+            ex_.write_path(st_, me.cell, tuple(me.proj) + (("field", pi, "u64"),), Sym(old + adv, "u64"))
+            if cname.endswith("read_record"):
+                rec = ex_._get_field(st_, r, "Ok", 0, "record::record::Record")
+                rec.fields[("ghost", "n")] = Sym(BV64(len([e for e in st_.events if e[0] == "call" and e[1].endswith("read_record")])), "u64")
+            st_.events.append(("call", cname, args, r))
+            return [(r, None)]
+        return None
+    ex.call_hook = call_hook
+
+    def h_preprocess(ex_, st_, frame, t, nf, args, dty):
+        tup = args[1]
+        item = tup.fields[(None, 0)] if isinstance(tup, Obj) and (None, 0) in tup.fields else tup
+        okv = z3.Bool(fresh_name("pre_ok"))
+        r = Obj(dty)
+        r.discr = Sym(z3.If(okv, BV64(0), BV64(1)), "isize")
+        r.fields[("Ok", 0)] = item
+        st_.events.append(("call", "preprocess", [item], r))
+        return [(r, None)]
+    ex.summaries.insert(0, (re.compile(r"^<[FH] as Fn<.*>>::call$"), h_preprocess))
+    inp = Ref(st.new_cell(Obj("P")), (), False, "&P")
+    outp = Ref(st.new_cell(Obj("Q")), (), False, "&Q")
+    outs = _sync_run(ex, st, fn, [inp, outp, Sym(every, "usize"), Obj("F"), Obj("H"), Sym(skip, "bool")])
+    res.paths = len(outs)
+    for o in outs:
+        if o.status in ("infeasible", "unwind"):
+            continue
+        if o.status != "returned":
+            if not P.prove(ex, res, o, z3.BoolVal(False), "no panic (%s)" % o.note):
+                break
+            continue
+        isok = ex.get_discr(o, o.result).t == BV64(0)
+        evs = [e for e in o.events if e[0] == "call"]
+        reads = [e for e in evs if e[1] == "BlobReader::read_record"]
+        pres = [e for e in evs if e[1] == "preprocess" and isinstance(e[2][0], Obj) and ("ghost", "n") in e[2][0].fields]
+        writes = [e for e in evs if e[1] == "BlobWriter::write_record"]
+        wh = [e for e in evs if e[1] == "BlobWriter::write_header"]
+        vals = [e for e in evs if e[1] == "BlobWriter::validate_written_records"]
+        okd = lambda e: ex.get_discr(o, e[3]).t == BV64(0)
+        # the k-th write is the k-th record read, and that read and its preprocessing were Ok
+        bad = False
+        if len(writes) > len(reads):
+            res.status = "violated"; res.detail = "%d writes for %d reads" % (len(writes), len(reads)); break
+        for k, w in enumerate(writes):
+            rec = w[2][1]
+            tag = rec.fields.get(("ghost", "n")) if isinstance(rec, Obj) else None
+            if tag is None or z3.simplify(tag.t).as_long() != k:
+                res.status = "violated"; res.detail = "write %d is not the %d-th record read" % (k, k); bad = True; break
+            if not P.prove(ex, res, o, okd(reads[k]), "a record is written only if its read succeeded"):
+                bad = True; break
+        if bad:
+            break
+        # every record read Ok and preprocessed Ok was written (unless an earlier write failed)
+        for k, r in enumerate(reads):
+            if k < len(writes):
+                continue
+            pre_ok = okd(pres[k]) if k < len(pres) else z3.BoolVal(True)
+            earlier_fail = z3.Or([z3.Not(okd(w)) for w in writes]) if writes else z3.BoolVal(False)
+            if not P.prove(ex, res, o, z3.Or(z3.Not(okd(r)), z3.Not(pre_ok), earlier_fail), "a record that was read (and preprocessed) successfully is written"):
+                bad = True; break
+        if bad:
+            break
+        # nothing is read after a failed read; a failed write fails the tool
+        for k in range(len(reads) - 1):
+            if not P.prove(ex, res, o, okd(reads[k]), "no read after a failed read"):
+                bad = True; break
+        if bad:
+            break
+        if writes and not P.prove(ex, res, o, z3.Implies(isok, z3.And([okd(w) for w in writes])), "Ok => every write succeeded"):
+            break
+        if not P.prove(ex, res, o, z3.Implies(isok, z3.BoolVal(len(wh) == 1)), "Ok => the blob header was written once"):
+            break
+        if wh and writes:
+            if evs.index(wh[0]) > evs.index(writes[0]):
+                res.status = "violated"; res.detail = "record written before the blob header"; break
+        if not P.prove(ex, res, o, z3.Implies(z3.And(isok, every != BV64(0)), z3.BoolVal(bool(vals) and evs.index(vals[-1]) > (evs.index(writes[-1]) if writes else -1))),
+                       "validation requested: the written records are re-validated after the last write"):
+            break
+        if vals and not P.prove(ex, res, o, z3.Implies(isok, z3.And([okd(v) for v in vals])), "Ok => re-validation succeeded"):
+            break
+        P.cover(ex, res, o, z3.And(isok, z3.BoolVal(len(writes) >= 2 and len(reads) == len(writes))), "two or more records copied to the end of the input")
+        if reads:
+            P.cover(ex, res, o, z3.And(isok, z3.Not(okd(reads[-1])), z3.BoolVal(len(writes) >= 1)), "intact prefix copied, stopped at the damage")
+        P.cover(ex, res, o, z3.And(z3.Not(isok), z3.BoolVal(len(writes) >= 1)), "write or validation failure reported")
+    return P.finish(ex, res, ["two or more records copied to the end of the input", "intact prefix copied, stopped at the damage", "write or validation failure reported"])
